@@ -11,6 +11,10 @@ use vx_core::{bfs, catch, fnv1a, Bfs, Ctx, Report};
 pub trait Elem: MatrixElement + PartialEq + Debug + 'static {
     fn from_u8(x: u8) -> Self;
     fn to_i64(&self) -> i64;
+    /// a value that is not equal to itself, when the type has one (f32: NaN)
+    fn irreflexive() -> Option<Self> {
+        None
+    }
     const NAME: &'static str;
 }
 impl Elem for u8 {
@@ -37,6 +41,9 @@ impl Elem for f32 {
     }
     fn to_i64(&self) -> i64 {
         self.to_bits() as i64
+    }
+    fn irreflexive() -> Option<Self> {
+        Some(f32::NAN)
     }
     const NAME: &'static str = "f32";
 }
@@ -475,6 +482,33 @@ impl<T: Elem, C: ArrayLength + PartialEq> Sys<T, C> {
             shorter.resize(rows - 1);
             if shorter == *m {
                 return Err("matrix == clone with one row less".into());
+            }
+            // equality is a function of the logical cells and nothing else (not of object identity): with a
+            // cell that is not equal to itself the matrix answers what the table of its cells answers,
+            // whether it is compared with itself, with its clone or with a rebuilt matrix
+            if let Some(w) = T::irreflexive() {
+                for (i, j) in [(0usize, 0usize), (rows - 1, c - 1)] {
+                    let mut table = self.model.clone();
+                    table[i][j] = w;
+                    let mut a = m.clone();
+                    a[i][j] = w;
+                    let b = a.clone();
+                    let rebuilt = DenseMatrix::<T, C>::from_rows(table.iter().map(|r| r.as_slice()).collect::<Vec<_>>());
+                    let want = table == table.clone();
+                    let alias: &DenseMatrix<T, C> = &a;
+                    for (what, got, ne) in [
+                        ("itself", *alias == a, *alias != a),
+                        ("its clone", a == b, a != b),
+                        ("a matrix rebuilt from the same cells", a == rebuilt, a != rebuilt),
+                    ] {
+                        if got != want || ne == want {
+                            return Err(format!(
+                                "matrix with a not-self-equal value in cell ({},{}) compared with {}: == gives {}, != gives {}, the table of its cells gives {}",
+                                i, j, what, got, ne, want
+                            ));
+                        }
+                    }
+                }
             }
         }
         Ok(())
